@@ -462,12 +462,82 @@ theorem removeWorker_sub {s s' : State} {w : Nat} {reason : String} {f : Bool} {
 
 /-! ### Sched.lean -/
 
-theorem placeSn_stable {s s' : State} {m m' : List WUpdate} {v : Nat} {r : Rq} {id : TaskId} {w : Nat}
-    (h : s.placeSn m v r id w = .ok (s', m')) : IdsStable s s' := by
+/-- `placeSn` without the validation of the solver's resource row (the body that changes the state) -/
+def State.placeSnBody (s : State) (m : List WUpdate) (v : Nat) (r : Rq) (id : TaskId) (w : Nat) : M (State × List WUpdate) :=
+  match s.withWorker w (·.insertSn id r) with
+  | .error e => .error e
+  | .ok s1 =>
+    match s1.getTask id with
+    | .error e => .error e
+    | .ok task =>
+      match task.state with
+      | .waiting _ =>
+        .ok (s1.setTask { task with state := .assigned w v }, updAt m w fun u => { u with assigned := u.assigned ++ [(id, v)] })
+      | .retracting old =>
+        let prev := s1.redirects.find? (·.1 = id)
+        let s2 := { s1 with redirects := (s1.redirects.filter (·.1 ≠ id)) ++ [(id, w, v)] }
+        match prev with
+        | some (_, oldTarget, ov) =>
+          match s2.rq task.rq ov with
+          | .error e => .error e
+          | .ok r' =>
+            match s2.withWorker oldTarget (·.removeSn id r') with
+            | .error e => .error e
+            | .ok s3 => .ok (s3.setTask { task with state := .retracting old }, m)
+        | none => .ok (s2, m)
+      | .prefilled old =>
+        match s1.withWorker old (·.removePrefill id) with
+        | .error e => .error e
+        | .ok s2 =>
+          if s2.redirects.any (·.1 = id) then .error (.panic "create_task_mapping.assert_no_redirect") else
+          let s3 := { s2 with redirects := s2.redirects ++ [(id, w, v)] }
+          .ok (s3.setTask { task with state := .retracting old },
+               updAt m old fun u => { u with retracts := u.retracts ++ [id] })
+      | _ => .error (.panic "create_task_mapping.unreachable")
+
+/-- what the validation in `placeSn` establishes -/
+def State.placeFits (s : State) (r : Rq) (w : Nat) : Prop :=
+  ∀ wk A F P, s.worker? w = some wk → wk.assign = .sn A F P → fitsNow F r.entries = true
+
+theorem placeSn_ok {s : State} {m : List WUpdate} {v : Nat} {r : Rq} {id : TaskId} {w : Nat} {x : State × List WUpdate}
+    (h : s.placeSn m v r id w = .ok x) : s.placeSnBody m v r id w = .ok x ∧ s.placeFits r w := by
+  unfold State.placeSn at h
+  unfold State.placeSnBody State.placeFits
+  split at h
+  · rename_i wk hw
+    cases ha : wk.assign with
+    | sn A F P =>
+      simp only [ha] at h
+      split at h
+      · cases h
+      · rename_i hc
+        refine ⟨h, ?_⟩
+        intro wk' A' F' P' hw' ha'
+        rw [hw] at hw'; cases hw'
+        rw [ha] at ha'; cases ha'
+        simpa using hc
+    | mn t a b =>
+      simp only [ha, Bool.false_eq_true, if_false] at h
+      refine ⟨h, ?_⟩
+      intro wk' A' F' P' hw' ha'
+      rw [hw] at hw'; cases hw'
+      rw [ha] at ha'; cases ha'
+  · rename_i hw
+    simp only [Bool.false_eq_true, if_false] at h
+    refine ⟨h, ?_⟩
+    intro wk' A' F' P' hw' ha'
+    rw [hw] at hw'; cases hw'
+
+theorem placeSnBody_stable {s s' : State} {m m' : List WUpdate} {v : Nat} {r : Rq} {id : TaskId} {w : Nat}
+    (h : s.placeSnBody m v r id w = .ok (s', m')) : IdsStable s s' := by
   unfold IdsStable
-  simp only [State.placeSn] at h
+  simp only [State.placeSnBody] at h
   repeat' (split at h)
   all_goals grind [setTask_ids]
+
+theorem placeSn_stable {s s' : State} {m m' : List WUpdate} {v : Nat} {r : Rq} {id : TaskId} {w : Nat}
+    (h : s.placeSn m v r id w = .ok (s', m')) : IdsStable s s' :=
+  placeSnBody_stable (placeSn_ok h).1
 
 theorem placeAll_ids (l : List (TaskId × Nat)) (s s' : State) (m m' : List WUpdate) (v : Nat) (r : Rq)
     (h : s.placeAll m v r l = .ok (s', m')) : taskIds s'.tasks = taskIds s.tasks := by
@@ -475,10 +545,10 @@ theorem placeAll_ids (l : List (TaskId × Nat)) (s s' : State) (m m' : List WUpd
   unfold IdsStable at hp
   fun_induction State.placeAll s m v r l <;> grind
 
-theorem mapSn_ids (es : List SnEntry) (s s' : State) (m m' : List WUpdate)
-    (h : s.mapSn m es = .ok (s', m')) : taskIds s'.tasks = taskIds s.tasks := by
+theorem mapSn_ids (es : List SnEntry) (s s' : State) (now : Nat) (m m' : List WUpdate)
+    (h : s.mapSn now m es = .ok (s', m')) : taskIds s'.tasks = taskIds s.tasks := by
   have hp := placeAll_ids
-  fun_induction State.mapSn s m es <;> grind
+  fun_induction State.mapSn s now m es <;> grind
 
 theorem setMnAll_tasks (ws : List Nat) (s s' : State) (id : TaskId) (first : Bool)
     (h : setMnAll s id ws first = .ok s') : s'.tasks = s.tasks := by
